@@ -104,6 +104,16 @@ CHECKS = {
          "OptionParser::run() with raw byte argv and argv[0] variants; (status, stdout, stderr, body sentinel) must be exactly "
          "what the in-process outcome predicts; plus the model differential.",
          "4/C11", "Rocq proof (status/stream table over the regenerated exit_code) + real child processes compared with the in-process prediction"),
+ "C15": ("proof", "Theorems in coq/Props/C15.v about a transcription of complete_shell.rs: C15_quote_roundtrip -- for EVERY string the "
+         "single-quote escaping is read back by a POSIX data-word lexer (which fails on any unquoted, unescaped character) as "
+         "exactly that string, hence quoting is injective and nothing quoted is interpreted; every zsh/bash directive is "
+         "newline-terminated; requested file/dir/raw completers are always rendered; the typed word is echoed back quoted. "
+         "The shells themselves are modelled by that word lexer (trusted). Tie: candidate lists, shell operations and typed "
+         "words over shell metacharacters are rendered by the library's own renderers (cfg(bpaf_verif) hook) and by the model "
+         "for revisions 1/7/8/9 and compared byte for byte; independent per-shell line lexers re-read the library's script and "
+         "check directive shapes, quoting, and that each candidate/completer appears exactly once. Three defects found this way "
+         "were repaired (fix: commits).",
+         "4/C15", "Rocq proof (quote round-trip through a shell-word lexer, line discipline) + byte-exact differential of the renderers via hook + per-shell script lexers"),
 }
 
 NA_REASON = "check not built yet in this revision (machinery under construction; see DESIGN.md section 7 staging)"
@@ -129,9 +139,9 @@ def main():
     m = {
         "version": 1,
         "setup_cmd": "./verify setup",
-        "hooks": {"guard": "bpaf_verif", "enable": "none needed: the machinery uses only bpaf's public API (no source hooks)",
+        "hooks": {"guard": "bpaf_verif", "enable": "harness/driver/.cargo/config.toml passes rustflags --cfg bpaf_verif (and --check-cfg cfg(bpaf_verif)) to every harness build; the hooks (bpaf::verif_hooks, Doc::verif_*) exist only under that cfg",
                   "baseline_off_cmd": "cd /repo && cargo test --workspace --no-fail-fast --offline",
-                  "source_commits": [], "add_only": True},
+                  "source_commits": ["871a93d"], "add_only": True},
         "engines": [{"name": "rocq+diff", "path": "/verif/verify", "serves_properties": [c["property_id"] for c in checks],
                      "kind_free_text": "Coq 8.16 development (coq/), extracted OCaml model runner (ocaml/), Rust driver (harness/driver), Python orchestration (vlib/)"}],
         "checks": checks,
